@@ -91,6 +91,19 @@ Definition duality_ok (e : elem) : bool :=
   negb (Nat.eqb (length (located (e_doflocs e) (nbfun e))) 0) &&
   duality_on (nbfun e) (values e) (e_doflocs e).
 
+(* elements whose polynomials carry formal parameters beyond the e_dim coordinates (the integrated-Legendre family:
+   scales c_n = sqrt((2n-1)/2) kept as indeterminates): substitute the coordinates only *)
+Definition at_coords (d : nat) (x : list Q) : nat -> poly :=
+  fun k => if Nat.ltb k d then pconst (nth k x 0%Q) else pvar k.
+Definition duality_param_ok (e : elem) : bool :=
+  forallb is_h1 (e_basis e) && Nat.eqb (length (e_doflocs e)) (nbfun e) &&
+  negb (Nat.eqb (length (located (e_doflocs e) (nbfun e))) 0) &&
+  forallb (fun j => match nth j (e_doflocs e) None with
+                    | None => true
+                    | Some x => forallb (fun i => peqb (psubstn (at_coords (e_dim e) x) (nthp (values e) i)) (pconst (delta i j)))
+                                        (seq 0 (nbfun e))
+                    end) (seq 0 (nbfun e)).
+
 (* partition of unity: the functions attached to located DOFs sum to one identically *)
 Definition pou_sum (e : elem) : poly := psum (map (nthp (values e)) (located (e_doflocs e) (nbfun e))).
 Definition pou_ok (e : elem) : bool := forallb is_h1 (e_basis e) && peqb (pou_sum e) (pconst 1).
@@ -205,3 +218,34 @@ Fixpoint qs_close (tol : Q) (l1 l2 : list Q) : bool :=
   | a :: t1, b :: t2 => q_close tol a b && qs_close tol t1 t2
   | _, _ => false
   end.
+
+(* ---- defining functionals of the ElementGlobal family: per local DOF the functional kind ("u", "u_x", "u_xy",
+   "u_n@edge1", ...) and its location as weights on the cell's vertices.  [got]: what the real gdof does (symbolic
+   execution); [want]: what dofnames + DOF layout + refdom tables say. ---- *)
+Definition gdof_entry := (String.string * list Q)%type.
+Fixpoint qs_eqb (a b : list Q) : bool :=
+  match a, b with
+  | [], [] => true
+  | x :: a', y :: b' => Qeq_bool x y && qs_eqb a' b'
+  | _, _ => false
+  end.
+Definition gdof_eqb (a b : gdof_entry) : bool := String.eqb (fst a) (fst b) && qs_eqb (snd a) (snd b).
+Fixpoint gdofs_eqb (a b : list gdof_entry) : bool :=
+  match a, b with
+  | [], [] => true
+  | x :: a', y :: b' => gdof_eqb x y && gdofs_eqb a' b'
+  | _, _ => false
+  end.
+(* the point sum_k w_k p_k, p_k the reference vertices *)
+Definition comb_point (dim : nat) (refp : list (list Q)) (w : list Q) : list Q :=
+  map (fun c => Qred (fold_right Qplus 0%Q (map (fun kw => (snd kw * nth c (fst kw) 0)%Q) (combine refp w)))) (seq 0 dim).
+Fixpoint locs_eqb (dim : nat) (refp : list (list Q)) (want : list gdof_entry) (locs : list (list Q)) : bool :=
+  match want, locs with
+  | [], [] => true
+  | g :: want', x :: locs' => qs_eqb (comb_point dim refp (snd g)) x && locs_eqb dim refp want' locs'
+  | _, _ => false
+  end.
+Record gelem := mkGelem { g_name : String.string; g_dim : nat; g_refp : list (list Q);
+                          g_got : list gdof_entry; g_want : list gdof_entry; g_doflocs : list (list Q) }.
+Definition gdof_ok (g : gelem) : bool :=
+  negb (Nat.eqb (length (g_got g)) 0) && gdofs_eqb (g_got g) (g_want g) && locs_eqb (g_dim g) (g_refp g) (g_want g) (g_doflocs g).
